@@ -516,7 +516,8 @@ def _module_single_assigns(ix, modname):
 
 
 def _same_binding(ix, fi, defmod, name):
-    """does `name` mean in fi's scope what it means at top level of module defmod?"""
+    """does `name` mean in fi's scope what it means at top level of module defmod?  (a name fi's scope does not know at all is
+    added to fi's function-local import table with the meaning it has in defmod)"""
     try:
         a = ix.resolve_in(fi, name)
         b = ix.resolve(defmod, name)
@@ -525,6 +526,9 @@ def _same_binding(ix, fi, defmod, name):
     if a is None and b is None:
         import builtins
         return hasattr(builtins, name)
+    if a is None and b is not None:
+        ix.func_imports(fi)[name] = ("attr", defmod, name)
+        return True
     if a is None or b is None or a[0] != b[0]:
         return False
     if a[0] in ("func", "class"):
@@ -571,10 +575,16 @@ class _ConstValue:
         """display for the module-level name `name` of module modname, or None"""
         if depth > 4 or name in KNOWN_CONSTANTS or name in self.mutated or (name.startswith("__") and name.endswith("__")):
             return None
-        e = _module_single_assigns(self.ix, modname).get(name)
-        if e is None:
+        try:
+            r = self.ix.resolve(modname, name)
+        except Exception:  # noqa
+            r = None
+        if not r or r[0] != "value":
             return None
-        return self.convert(e, modname, depth, top=True)
+        defmod = r[2]
+        if not any(v is r[1] for v in _module_single_assigns(self.ix, defmod).values()):
+            return None
+        return self.convert(r[1], defmod, depth, top=True)
 
     def convert(self, e, modname, depth, top=False):
         v = self._convert(e, modname, depth, top)
